@@ -2,6 +2,7 @@ package checks
 
 import (
 	"fmt"
+	"github.com/trustbloc/sidetree-go/pkg/patch"
 
 	"github.com/trustbloc/sidetree-go/pkg/versions/1_0/doccomposer"
 
@@ -127,9 +128,41 @@ func runC10(r *fw.Runner) {
 					continue
 				}
 				c10Compare(c, composer, doc, pl.Patches, kind, pl.Actions)
+				if i%4 == 0 {
+					// the same list with one RFC 6902 operation that cannot apply to the document at that point, at a random position:
+					// the whole list must be refused
+					bad := c10Inapplicable(c.Rng)
+					at := c.Rng.Intn(len(pl.Patches) + 1)
+					l := append(append(append([]interface{}{}, pl.Patches[:at]...), bad), pl.Patches[at:]...)
+					if _, merr := oracle.ApplyPatchesModel(doc, l, oracle.Quirks{}); merr != nil {
+						c10Compare(c, composer, doc, l, kind+"+inapplicable", fmt.Sprint(bad["patches"].([]interface{})[0].(map[string]interface{})["op"], "@", at))
+					}
+				}
 			}
 		})
 	}
+}
+
+// c10Inapplicable draws a validated ietf-json-patch whose single operation names a member that no generated document has.
+func c10Inapplicable(r *fw.Rand) map[string]interface{} {
+	ghost := "/ghost" + fmt.Sprint(r.Intn(1000))
+	switch r.Intn(8) {
+	case 0:
+		return gen.PJSON(op("remove", ghost))
+	case 1:
+		return gen.PJSON(op("replace", ghost, "value", r.Intn(10)))
+	case 2:
+		return gen.PJSON(op("test", ghost, "value", r.Intn(10)))
+	case 3:
+		return gen.PJSON(op("test", ghost, "value", nil))
+	case 4:
+		return gen.PJSON(op("move", "/landing", "from", ghost))
+	case 5:
+		return gen.PJSON(op("copy", "/landing", "from", ghost))
+	case 6:
+		return gen.PJSON(op("add", ghost+"/child", "value", 1))
+	}
+	return gen.PJSON(op("replace", ghost+"/child", "value", 1))
 }
 
 func countCollisions(doc map[string]interface{}, patches []interface{}) int {
@@ -193,13 +226,36 @@ func c10Compare(c *fw.Case, composer *doccomposer.DocumentComposer, doc map[stri
 		c.Inconclusive("conversion")
 		return
 	}
+	if c.Rng.Chance(1, 3) {
+		// the patches arrive as JSON text in another spelling of the same values (numbers as 2.0 / 2e0 / 0.2e1, escaped characters,
+		// member order, whitespace) and are read with patch.FromBytes: the outcome is defined on values, not spellings
+		lps = lps[:0]
+		for _, raw := range patches {
+			lp, err := patch.FromBytes(gen.Spell(c.Rng, raw, gen.AllSpell))
+			if err != nil {
+				c.Failf("respelled-patch-refused", map[string]interface{}{"patch": raw, "err": err.Error()}, "patch.FromBytes refused another spelling of a validated patch: %v", err)
+				return
+			}
+			lps = append(lps, lp)
+		}
+		c.Count("lists-from-respelled-text", 1)
+	}
 	c.Journal(gen.ToJSON(map[string]interface{}{"doc": doc, "patches": patches}))
 	got, gerr := composer.ApplyPatches(ldoc, lps)
 	w := map[string]interface{}{"document": doc, "patches": patches}
 	if merr != nil {
 		// generator only emits applicable lists; a model failure means an inapplicable list
+		c.Count("inapplicable-lists", 1)
 		if gerr == nil {
-			c.Failf("applied-inapplicable", w, "model says the list does not apply (%v) but ApplyPatches succeeded", merr)
+			fp := "applied-inapplicable"
+			gg, _ := sut.FromDoc(got)
+			if q, ok := explainByQuirks(doc, patches, gg, false); ok {
+				fp = "jsonpatch-quirk:" + q
+			}
+			w["got"] = gg
+			c.Failf(fp, w, "the list does not apply under RFC 6902 (%v) but ApplyPatches succeeded", merr)
+		} else {
+			c.Count("inapplicable-lists-refused", 1)
 		}
 		return
 	}
